@@ -5,7 +5,8 @@
    attributes), from the sources as committed in /repo (fix series proposed_fixes/SERIES-C14C15.txt + CSV cell-text fix b0400cb).
    "reachable s": s is the state after some sequence of requests whose library calls return (wf_request). *)
 From Coq Require Import List String ZArith QArith Bool.
-From Crem Require Import Base.Res Engine EngineProofs EngineC14.
+From Crem Require Import Base.Res Engine EngineProofs EngineC14 EngineCatchment.
+From Crem Require Catchment.
 Import ListNotations.
 
 Section C14.
@@ -94,6 +95,32 @@ Proof. intros rs s s' m H. apply pure_run_keeps_tidy. now apply reachable_Inv. Q
 
 End C14.
 
+(* 5. The abstract valuation tied to the catchment model (EngineCatchment.v): for an ARBITRARY well-formed catchment
+      data set [d], in every reachable engine state whose scenario is [d], the decision variables served by GET /model
+      are THE catchment valuation (Catchment.canon_obs: totals and per-unit values of the six variables) of the action
+      set last written -- and equal what the Go catchment model shows after ANY history of its own operations ending in
+      that action set (C01). *)
+Theorem C14_served_variables_are_the_catchment_valuation :
+  forall (d : Catchment.dataset) errs (s : state valuation) (m : mstate valuation),
+    Catchment.wf_dataset d = true -> reachable s -> st_model s = Some m -> m_desc m = engine_desc d errs ->
+    exists sn, st_snap s = Some sn
+      /\ sn_bits sn = m_bits m
+      /\ sn_vars sn = catch_eval d (m_bits m)
+      /\ map Catchment.o_total (sn_vars sn) = catch_totals d (m_bits m)
+      /\ (forall h, Catchment.wf_history d h = true -> Catchment.active_list d (Catchment.run d h) = m_bits m ->
+                    Catchment.o_vars (Catchment.obs_of d (Catchment.run d h)) = sn_vars sn).
+Proof. exact served_variables_are_the_catchment_valuation. Qed.
+
+Theorem C14_routes_serve_the_same_catchment_valuation :
+  forall (d : Catchment.dataset) errs (s s1 s2 : state valuation) (rs1 rs2 : list (request valuation)) m,
+    reachable s -> st_model s = Some m -> m_desc m = engine_desc d errs -> tidy5 (m_attrs m) ->
+    forallb wf_request rs1 = true -> forallb pure_route rs1 = true -> Engine.run s rs1 = Ok s1 -> wrote s rs1 = true ->
+    forallb wf_request rs2 = true -> forallb pure_route rs2 = true -> Engine.run s rs2 = Ok s2 -> wrote s rs2 = true ->
+    option_map m_bits (st_model s1) = option_map m_bits (st_model s2) ->
+    exists sn1 sn2, st_snap s1 = Some sn1 /\ st_snap s2 = Some sn2 /\ same_representation sn1 sn2
+      /\ sn_vars sn1 = catch_eval d (sn_bits sn1) /\ sn_vars sn2 = catch_eval d (sn_bits sn1).
+Proof. exact routes_serve_the_same_catchment_valuation. Qed.
+
 (* ---------------------------------------------------------------------------------------------------------------- *)
 (* The FULL route-equivalence statement is false of the faithful model.  Witness (replayed on the real engine by the
    harness on every run, listed in tools/props/C14.known.json): after PATCH /model [{ModelSuppliedPlanningUnitName: "X"}]
@@ -180,4 +207,6 @@ Print Assumptions C14_solution_read_keeps_resources.
 Print Assumptions C14_route_equivalence_partial.
 Print Assumptions C14_tidy_after_post_scenario.
 Print Assumptions C14_tidy_kept_by_the_routes.
+Print Assumptions C14_served_variables_are_the_catchment_valuation.
+Print Assumptions C14_routes_serve_the_same_catchment_valuation.
 Print Assumptions C14_route_equivalence_full_refuted.
